@@ -3,6 +3,7 @@ CONSTANTS
   Programs <- Programs2x2
   ShardOf <- SameShard
   InsertOverwrites = TRUE
+  MapSkipsHeldShard = FALSE
 SPECIFICATION FairSpec
 INVARIANTS NoMonitorFired CloneOK NoDeadlock
 PROPERTIES WriteOnce Termination
